@@ -422,8 +422,9 @@ result<std::optional<url_pattern_result>> url_pattern<regex_provider>::match(
     search = std::move(apply_result->search.value());
 
     // Set hash to applyResult["hash"].
+    // (process() removed a single leading "#"; the fragment may still start
+    // with one, e.g. for "##a".)
     ADA_ASSERT_TRUE(apply_result->hash.has_value());
-    ADA_ASSERT_TRUE(!apply_result->hash->starts_with("#"));
     hash = std::move(apply_result->hash.value());
   } else {
     ADA_ASSERT_TRUE(std::holds_alternative<std::string_view>(input));
